@@ -13,7 +13,7 @@ LAMBDAS = ['matchesPrimitive', 'numericPromotion']
 AST_FILTER = ['isArrayTypeName', 'isArrayType', 'isClassRefType', 'SemanticAnalyser::isAccessible', 'SemanticAnalyser::isAssignableType', 'SemanticAnalyser::conversionCost', 'SemanticAnalyser::resolveField', 'SemanticAnalyser::recordFinalFieldAssignment',
               'matchesPrimitive', 'numericPromotion', 'SemanticAnalyser::validateTypedInitializer', 'ValueType', 'Visibility', 'SemanticAnalyser::visit']
 SHIM = 'semk.h'
-SITES = ['ReturnStatement', 'AssignmentStatement', 'AssignmentExpression', 'MemberAssignmentExpression']
+SITES = ['ReturnStatement', 'AssignmentStatement', 'AssignmentExpression', 'MemberAssignmentExpression', 'PostfixExpression']
 THROWING = {'validateTypedInitializer_decision', 'resolveField', 'recordFinalFieldAssignment', 'checkArgs'} | {'visit_' + x for x in SITES}
 DROPS = ['class / array type names: interned identities; their text only through two uninterpreted functions (size, position of the last "[]")',
          'TypeInfo::typeArgs: only its element count; typeEquals, isSubclassOf, inheritanceDistance, getTypeParamBound: contract-only stubs (uninterpreted class hierarchy)',
@@ -62,7 +62,7 @@ class Profile(Lower):
                 'typedef struct { _Bool has; int v; } opt_int;',
                 'typedef struct { _Bool has; TypeInfo v; } opt_TypeInfo;',
                 'typedef int bl_ast; typedef int bl_clsinfo;',
-                'typedef struct { bl_ast value; bl_ast object; bl_cname name; bl_cname member; int line; int column; } bl_node;',
+                'typedef struct { bl_ast value; bl_ast object; bl_ast left; bl_cname name; bl_cname member; bl_cname op; int line; int column; } bl_node;',
                 'typedef struct { int visibility; _Bool isStatic; _Bool isFinal; _Bool hasInitializer; TypeInfo type; bl_cname owner; int line; int column; } FieldInfo;']
 
     def string_literal(self, n):
@@ -181,6 +181,12 @@ class Profile(Lower):
             inner = self.expr(sb)
             if inner.startswith('BL_ARGREF('):
                 return 'g_arg_%s[BL_IDX(%s, PMAXA)]' % (n['name'], inner[len('BL_ARGREF('):-1])
+        if sb.get('kind') == 'DeclRefExpr' and sb['referencedDecl']['name'] in getattr(self, 'varexpr_src', {}):
+            srcx = self.varexpr_src[sb['referencedDecl']['name']]
+            if n['name'] == 'name':
+                return 'AST_VARNAME(%s)' % srcx
+            if n['name'] in ('line', 'column'):
+                return 'AST_%s(%s)' % (n['name'].upper(), srcx)
         if getattr(self, 'in_checkargs', False) and n['name'] == 'arguments':
             return 'BL_ARGUMENTS'
         if sb.get('kind') == 'CXXThisExpr':
@@ -278,6 +284,23 @@ class Profile(Lower):
             walk(v, lambda z: dc.append(z) if z.get('kind') == 'CXXDynamicCastExpr' else None)
             if not dc:
                 raise Unsupported('if with condition variable ' + v.get('name', ''))
+            tgt = dc[0].get('type', {}).get('qualType', '')
+            if 'VariableExpression' in tgt and self.fn.startswith('visit_'):
+                # the node IS a plain variable reference: a fixed (uninterpreted) fact about the sub-expression; its name likewise
+                src = self.expr(kids(dc[0])[0])
+                out.append(p + '  _Bool %s = semk_stub_is_variable_expr(%s);' % (v['name'], src))
+                self.varexpr_src = getattr(self, 'varexpr_src', {})
+                self.varexpr_src[v['name']] = src
+                self.locals.add(v['name'])
+                cond = v['name']
+                rest = ks[i + 2:]
+                out.append(p + '  if (%s)' % cond)
+                out += self.block(rest[0], ind + 1)
+                if len(rest) > 1:
+                    out.append(p + '  else')
+                    out += self.block(rest[1], ind + 1)
+                out.append(p + '}')
+                return out
             # what the initialiser node is does not matter for the decision, only for the message: an arbitrary boolean
             out.append(p + '  _Bool %s = semk_stub_ast_shape();' % v['name'])
             self.locals.add(v['name'])
@@ -447,6 +470,12 @@ int __CPROVER_uninterpreted_declared(bl_cname); int __CPROVER_uninterpreted_fina
 #define IS_TYPEREF(e) (__CPROVER_uninterpreted_is_typeref(e) != 0)
 #define TI_EQ(a, b) ((a).value == (b).value && (a).className == (b).className && (a).typeArgs == (b).typeArgs && (a).isTypeParam == (b).isTypeParam)
 #define SEM_OR_NONE (bl_exc == 0 || bl_exc == EXC_SEM)
+int __CPROVER_uninterpreted_is_varexpr(bl_ast); bl_cname __CPROVER_uninterpreted_ast_varname(bl_ast); int __CPROVER_uninterpreted_ast_line(bl_ast); int __CPROVER_uninterpreted_ast_column(bl_ast);
+#define IS_VAREXPR(e) ((e) != 0 && __CPROVER_uninterpreted_is_varexpr(e) != 0)
+#define AST_VARNAME(e) __CPROVER_uninterpreted_ast_varname(e)
+#define AST_LINE(e) __CPROVER_uninterpreted_ast_line(e)
+#define AST_COLUMN(e) __CPROVER_uninterpreted_ast_column(e)
+_Bool semk_stub_is_variable_expr(bl_ast e) __CPROVER_assigns() __CPROVER_ensures(__CPROVER_return_value == IS_VAREXPR(e));
 _Bool semk_stub_isDeclared(bl_cname n) __CPROVER_assigns() __CPROVER_ensures(__CPROVER_return_value == DECLARED(n));
 _Bool semk_stub_isFinal(bl_cname n) __CPROVER_assigns() __CPROVER_ensures(__CPROVER_return_value == FINALVAR(n));
 _Bool semk_stub_isThisReference(bl_ast e) __CPROVER_assigns() __CPROVER_ensures(__CPROVER_return_value == IS_THIS(e));
@@ -615,9 +644,22 @@ CONTRACTS_SITES['checkArgs'] = {
                                  ('checkArgs.loop.accepted_so_far', '(gi < i) ==> (g_accept_gi != 0)')],
                   'decreases': 'g_nargs - i'}},
 }
+PN = 'AST_VARNAME(node.left)'
+CONTRACTS_SITES['visit_PostfixExpression'] = {'contract': [
+    R('bl_exc == 0 && WF_T(VT_OF(' + PN + ')) && WF_T(g_field.type)'),
+    A('bl_exc, bl_exc_line, bl_exc_col, g_fih_ret'),
+    E('postfix.only_semantic_errors', 'SEM_OR_NONE', ['C16', 'C13']),
+    # C16: final variables and final fields are never incremented; ++ / -- only on int / long variables
+    E('postfix.final_variable_never_incremented', '(IS_VAREXPR(node.left) && DECLARED(' + PN + ') && FINALVAR(' + PN + ')) ==> AT_NODE', ['C16']),
+    E('postfix.final_field_never_incremented', '(bl_exc == 0 && IS_VAREXPR(node.left) && !DECLARED(' + PN + ')) ==> (g_fih_ret != 0 && !g_field.isFinal)', ['C16']),
+    E('postfix.only_int_or_long_variables', '(bl_exc == 0 && IS_VAREXPR(node.left) && DECLARED(' + PN + ')) ==> ((VT_OF(' + PN + ').value == BL_Int || VT_OF(' + PN + ').value == BL_Long) && VT_OF(' + PN + ').className == 0)', ['C16']),
+    E('postfix.only_int_or_long_fields', '(bl_exc == 0 && IS_VAREXPR(node.left) && !DECLARED(' + PN + ')) ==> (g_field.type.value == BL_Int || g_field.type.value == BL_Long)', ['C16']),
+    E('postfix.only_on_variables', '(node.left != 0 && !IS_VAREXPR(node.left)) ==> bl_exc != 0', ['C16']),
+    E('postfix.int_variable_is_accepted', '(IS_VAREXPR(node.left) && DECLARED(' + PN + ') && !FINALVAR(' + PN + ') && VT_OF(' + PN + ').value == BL_Int && VT_OF(' + PN + ').className == 0) ==> bl_exc == 0', ['C16']),
+]}
 CONTRACTS.update(CONTRACTS_SITES)
 STUBS = ['semk_stub_typeEquals', 'semk_stub_isSubclassOf', 'semk_stub_inheritanceDistance', 'semk_stub_getTypeParamBound', 'semk_stub_ast_shape']
-SITE_STUBS = ['semk_stub_' + x for x in ('isDeclared', 'isFinal', 'isThisReference', 'isTypeReference', 'getVariableType', 'combine', 'substituteTypeParams', 'findClass', 'inferDiamondTypeArguments', 'inferTypeInfo', 'accept')]
+SITE_STUBS = ['semk_stub_' + x for x in ('is_variable_expr', 'isDeclared', 'isFinal', 'isThisReference', 'isTypeReference', 'getVariableType', 'combine', 'substituteTypeParams', 'findClass', 'inferDiamondTypeArguments', 'inferTypeInfo', 'accept')]
 HARNESSES = [
     dict(name='matchesPrimitive', fn='matchesPrimitive', replace=[], flags=[], props=['C16'], timeout=60),
     dict(name='numericPromotion', fn='numericPromotion', replace=[], flags=[], props=['C16', 'C07'], timeout=60),
@@ -635,7 +677,7 @@ HARNESSES = [
     dict(name='checkArgs', fn='checkArgs', replace=['matchesPrimitive', 'isAssignableType'] + STUBS, flags=[], props=['C16', 'C13', 'C08'], timeout=300, bounded_unwindset=['semk_isAssignableType:1'], unwind=4, bounded_defs=['PMAXA=2'],
          bounded_replace=STUBS, canaries=[('bl_exc == 0 && g_nargs >= 2', 'a call with several arguments accepted'), ('bl_exc != 0', 'rejected')]),
 ] + [dict(name='visit_' + st, fn='visit_' + st, replace=['matchesPrimitive', 'isAssignableType', 'isAccessible', 'recordFinalFieldAssignment'] + SITE_STUBS + STUBS, flags=[], props=['C16', 'C13'], timeout=180, bounded_unwindset=['semk_isAssignableType:1'],
-          bounded_replace=SITE_STUBS + STUBS, canaries=[('bl_exc == 0 && a0.value != 0', 'accepted with a value'), ('bl_exc != 0', 'rejected')]) for st in SITES]
+          bounded_replace=SITE_STUBS + STUBS, canaries=([('bl_exc == 0 && a0.value != 0', 'accepted with a value'), ('bl_exc != 0', 'rejected')] if st != 'PostfixExpression' else [('bl_exc == 0', 'accepted'), ('bl_exc != 0', 'rejected')])) for st in SITES]
 
 
 # =========================================================================== native side
